@@ -44,18 +44,18 @@ _REL = {"eq": V.eq, "le": V.le, "lt": V.lt, "ge": V.ge, "gt": V.gt, "ne": V.ne}
 def claim_formula(c: Claim):
     f = _REL[c.kind](c.lhs, c.rhs)
     if c.guard is not None:
-        gl, gk, gr = c.guard
-        return z3.Implies(_REL[gk](gl, gr), f)
+        gs = c.guard if isinstance(c.guard, list) else [c.guard]
+        return z3.Implies(z3.And(*[_REL[gk](gl, gr) for (gl, gk, gr) in gs]), f)
     return f
 
 
 def claim_holds_num(c: Claim, tol):
     if c.guard is not None:
-        gl, gk, gr = c.guard
-        gd = mp.mpf(gl) - mp.mpf(gr)
-        gok = {"eq": gd == 0, "le": gd <= 0, "lt": gd < 0, "ge": gd >= 0, "gt": gd > 0, "ne": gd != 0}[gk]
-        if not gok:
-            return True, 0.0
+        for (gl, gk, gr) in (c.guard if isinstance(c.guard, list) else [c.guard]):
+            gd = mp.mpf(gl) - mp.mpf(gr)
+            gok = {"eq": gd == 0, "le": gd <= 0, "lt": gd < 0, "ge": gd >= 0, "gt": gd > 0, "ne": gd != 0}[gk]
+            if not gok:
+                return True, 0.0
     a, b = c.lhs, c.rhs
     t = c.tol if c.tol is not None else tol
     try:
@@ -246,6 +246,22 @@ def replay(h, f_real, in_vals, aux, claim_index, label, model, ctx):
                 evaluate(IR(f_real), [[mp.mpf(x) for x in row] for row in ins_float[:f_real.n_in()]], MpDomain())
             except Undefined as e:
                 bad, why = True, f"undefined operation on the selected path: {e}"
+        if not bad and model:
+            # thin cell: 50-digit evaluation at the solver's own point
+            try:
+                env2 = {k: mp.mpf(v.numerator) / v.denominator for k, v in model.items()}
+                for n in names:
+                    env2.setdefault(n, mp.mpf(0))
+                h.env_fix(env2)
+                ins2 = [[eval_val(v, env2) for v in row] for row in in_vals]
+                try:
+                    o2 = evaluate(IR(f_real), ins2[:f_real.n_in()], MpDomain())
+                    if any(not mp.isfinite(x) for row in o2 for x in row if x is not None):
+                        bad, why = True, "non-finite output at the solver's point (50-digit evaluation)"
+                except Undefined as e:
+                    bad, why = True, f"undefined operation on the selected path (50-digit evaluation at the solver's point): {e}"
+            except Exception:
+                pass
         return dict(confirmed=bad, reason=why or "real function is finite at the model point",
                     inputs=ins_float[:f_real.n_in()],
                     env={k: float(v) for k, v in env.items() if "!" not in k})
@@ -260,6 +276,29 @@ def replay(h, f_real, in_vals, aux, claim_index, label, model, ctx):
         return dict(confirmed=False, reason="claim label not found in numeric replay")
     c = target[0]
     ok, d = claim_holds_num(c, h.tol)
+    if ok and model:
+        # the double-precision point may have left a thin branch cell: evaluate the real instruction list with
+        # 50-digit arithmetic at the solver's own (unrounded) point
+        try:
+            env2 = {k: mp.mpf(v.numerator) / v.denominator for k, v in model.items()}
+            for n in names:
+                env2.setdefault(n, mp.mpf(0))
+            h.env_fix(env2)
+            cache2 = {}
+            ins2 = [[eval_val(v, env2, cache2) for v in row] for row in in_vals]
+            ir_real = IR(f_real)
+            o2 = evaluate(ir_real, ins2[:f_real.n_in()], MpDomain())
+            outs2 = [ir_real.out_dense(i, o2[i], mp.mpf(0)) for i in range(ir_real.n_out)]
+            aux2 = _num_aux(aux, env2, cache2)
+            c2 = [x for x in h.claims(outs2, ins2, aux2) if x.label == label][0]
+            ok2, d2 = claim_holds_num(c2, h.tol)
+            if not ok2:
+                return dict(confirmed=True, diff=d2, inputs=[[float(x) for x in row] for row in ins2[:f_real.n_in()]],
+                            note="confirmed by 50-digit evaluation of the real instruction list at the solver's point "
+                                 "(the violation lives on a thin branch cell that double rounding leaves)",
+                            env={k: float(v) for k, v in env2.items() if "!" not in k})
+        except Exception as e:  # pragma: no cover
+            pass
     return dict(confirmed=not ok, diff=d, inputs=ins_float[:f_real.n_in()],
                 lhs=float(c.lhs) if mp.isfinite(mp.mpf(c.lhs)) else str(c.lhs),
                 rhs=float(c.rhs) if mp.isfinite(mp.mpf(c.rhs)) else str(c.rhs),
@@ -314,6 +353,34 @@ def run_harness(h: Harness, seed=0, tier="quick", shard=None):
             records.append(dict(label="defined:path", status="refuted", harness=h.name, detail=str(e), replay=rp, cell="?"))
             break
         ctx = cell.ctx
+        if getattr(cell, "error", None):
+            # undefined operation with constant operands on this path; it counts only if the path is reachable
+            if ctx.check(timeout_ms=20000) != "unsat":
+                reachable += 1
+                m = None
+                try:
+                    ctx.solver.set("timeout", 20000)
+                    if str(ctx.solver.check()) == "sat":
+                        from .solve import model_to_dict
+                        m = model_to_dict(ctx.solver.model())
+                except Exception:
+                    m = None
+                rp = dict(confirmed=True, note=cell.error)
+                if m is not None and nclaim % (shard[1] if shard else 1) == (shard[0] if shard else 0):
+                    try:
+                        rp = replay(h, f_real, ctx.in_vals, getattr(ctx, "aux", {}), None, "defined:path", m, ctx)
+                        rp["note"] = cell.error
+                    except Exception as e:
+                        rp = dict(confirmed=True, note=f"{cell.error} (replay failed: {e})")
+                if not rp.get("confirmed"):
+                    # the solver could not exclude this cell, but its model does not reach it on the real code
+                    # (fresh inverse-trig angles are only loosely tied to their sines): nothing is claimed for it
+                    stats["cells_unconfirmed_undefined"] = stats.get("cells_unconfirmed_undefined", 0) + 1
+                elif shard is None or shard[0] == 0:
+                    records.append(dict(label="defined:path[" + "".join("T" if d else "F" for d in cell.decisions) + "]",
+                                        status="refuted" if rp.get("confirmed") else "spurious", harness=h.name,
+                                        detail=cell.error, replay=rp, cell="".join("T" if d else "F" for d in cell.decisions)))
+            continue
         if not h.cell_filter(cell):
             stats["cells_skipped"] += 1
             continue
